@@ -249,3 +249,33 @@ def single_step_cases(op_names, val, params=(0, 1), sites=4, variants=((0, 0), (
                     for k2, k3 in variants:
                         step = [op, k1, k2, k3] + list(extra or [])
                         yield {"prog": prog, "steps": [step], "val": val}
+
+
+def distinct_step_cases(shard, nshards, op_names, val, params=(0, 1), grid=(8, 6, 8), cap=40, extra=None, groups=4):
+    """every template x parameter x every DISTINCT call the op catalogue resolves on it
+    (sched.distinct_steps), as one-step schedules.  Work is dealt out in two levels so that the
+    (program build + enumeration) cost is not paid 16 times and no shard is stuck with one big
+    program: programs go to `groups` groups of shards, the steps of a program are dealt round-robin
+    to the members of its group.  (Use with run_systematic(..., presharded=True).)"""
+    from .programs import build
+    from .. import sched
+
+    groups = max(1, min(groups, nshards))
+    g, rank = shard % groups, shard // groups
+    members = len([s for s in range(nshards) if s % groups == g])
+    idx = -1
+    for t in TEMPLATES:
+        for tk in params:
+            idx += 1
+            if idx % groups != g:
+                continue
+            prog = t(tk)
+            try:
+                env, p = build(prog)
+            except Exception:
+                continue
+            sctx = sched.SchedCtx(env, prog)
+            for j, step in enumerate(sched.distinct_steps(p, op_names, sctx, grid, cap)):
+                if j % members != rank:
+                    continue
+                yield {"prog": prog, "steps": [step + list(extra or [])], "val": val}
